@@ -113,10 +113,10 @@ var (
 
 	ResCookieHeaders = [][]string{nil, {"sid=abc"},
 		{"sid=abc; Path=/p; Domain=example.com; Expires=Wed, 21 Oct 2026 07:28:00 GMT; HttpOnly; Secure"},
-		{"a=1", "b=2; Path=/"}}
+		{"a=1; Secure", "b=2; Path=/; HttpOnly"}}
 	ResCookieTruth = [][]Cookie{nil, {{Name: "sid", Value: "abc"}},
 		{{Name: "sid", Value: "abc", Path: "/p", Domain: "example.com", Expires: "2026-10-21T07:28:00Z", HTTPOnly: true, Secure: true}},
-		{{Name: "a", Value: "1"}, {Name: "b", Value: "2", Path: "/"}}}
+		{{Name: "a", Value: "1", Secure: true}, {Name: "b", Value: "2", Path: "/", HTTPOnly: true}}}
 
 	ExtraHeaders = [][]KV{nil, {{"X-Multi", "a"}, {"X-Multi", "b"}, {"X-Empty", ""}}}
 
